@@ -129,7 +129,8 @@ def run_lock(job):
             part["transitions"] += int(calls)
             part["outcomes"]["%s_calls_from_extension:%s" % (fn, "all_under_interpreter_lock" if int(unheld) == 0 else "some_without_lock")] += 1
             if int(calls) == 0:
-                raise core.HarnessError("lock probe saw no %s call from the extension" % fn)
+                # an implementation that does not go through gmtime() at all has nothing to serialise here
+                part["outcomes"]["%s_not_used_by_extension" % fn] += 1
             if int(unheld):
                 part["violations"].append(core.Violation(
                     {"class": "non_reentrant_conversion_outside_interpreter_lock", "fn": fn}, {"job": list(job)},
@@ -141,9 +142,51 @@ def run_lock(job):
     return part
 
 
+def run_calendar(job):
+    """calendar breakdown of the public conversion for whole days: first second, noon and last second of every
+    day of the years y0..y1 (at 1 Hz the index is the Unix second)"""
+    import digital_rf as drf
+
+    _, y0, y1, only_edges = job
+    part = core.new_part()
+    day = datetime.date(y0, 1, 1)
+    end = datetime.date(y1, 12, 31)
+    one = datetime.timedelta(days=1)
+    e0 = datetime.date(1970, 1, 1)
+    ndays = 0
+    while day <= end:
+        if only_edges and not ((day.month == 2 and day.day >= 27) or (day.month == 3 and day.day <= 2) or (day.month == 12 and day.day >= 30)
+                               or (day.month == 1 and day.day <= 2)):
+            if day == datetime.date.max:
+                break
+            day += one
+            continue
+        base = (day - e0).days * 86400
+        for sec in (0, 43200, 86399):
+            k = base + sec
+            dt, p = drf.get_unix_time(k, 1, 1)
+            want = datetime.datetime(day.year, day.month, day.day, sec // 3600, sec % 3600 // 60, sec % 60)
+            part["evaluations"] += 1
+            if dt != want or p != 0:
+                if len(part["violations"]) < 3:
+                    part["violations"].append(core.Violation({"class": "calendar"}, {"job": list(job), "k": k},
+                                                             "get_unix_time(%d,1,1) = (%s,%d), Unix second %d is %s" % (k, dt, p, k, want)))
+        ndays += 1
+        if day == datetime.date.max:
+            break
+        day += one
+    part["transitions"] += part["evaluations"]
+    part["outcomes"]["calendar_days~%d" % (ndays // 1000 * 1000)] += 1
+    part["states"].add(core.canon(job))
+    part["nontrivial"].add(core.canon(job))
+    return part
+
+
 def run_job(job):
     if job[0] == "equiv":
         return run_equiv(job)
+    if job[0] == "calendar":
+        return run_calendar(job)
     if job[0] == "lock":
         return run_lock(job)
     part = core.new_part()
@@ -254,6 +297,22 @@ def run_job(job):
             bad({"class": "wrapper"}, {"job": [job[0], n, d, tier], "k": k},
                 "get_unix_time(%d,%d,%d) = (%s,%d), exact (%s,%d)" % (k, n, d, dt, p, want, ep))
             break
+        # the same index as a numpy integer scalar: refused (TypeError) or exactly the same answer
+        if k < 2**63:
+            for T_ in (np.int64, np.uint64):
+                try:
+                    dt2, p2 = drf.get_unix_time(T_(k), n, d)
+                except TypeError:
+                    part["outcomes"]["numpy_index_refused"] += 1
+                    continue
+                except Exception as e:  # noqa: BLE001
+                    bad({"class": "wrapper_raised", "index_type": T_.__name__}, {"job": [job[0], n, d, tier], "k": k}, "get_unix_time(%s(%d),%d,%d) raised %r" % (T_.__name__, k, n, d, e))
+                    break
+                nw += 1
+                if (dt2, p2) != (want, ep):
+                    bad({"class": "wrapper", "index_type": T_.__name__}, {"job": [job[0], n, d, tier], "k": k},
+                        "get_unix_time(%s(%d),%d,%d) = (%s,%d), exact (%s,%d)" % (T_.__name__, k, n, d, dt2, p2, want, ep))
+                    break
     part["evaluations"] += 2 * len(ks) + len(secs2) + nw
     part["transitions"] += 2 * len(ks) + len(secs2) + nw
     part["nontrivial"].add(core.canon((n, d)))
@@ -279,13 +338,19 @@ def main(tier):
               "indices each (multiples of n +-{0,1,2}, residues n-1 and n//2, seconds 0..year 9999, 2^32, 2^53, 2^62, 2^63-1, "
               "the last index before year 9999), monotonicity on the sorted grid, +-1 ps perturbations for the inverse, and the "
               "Python wrapper digital_rf.get_unix_time on a subset. A case is non-trivial/distinct per (n,d) pair. (c) one probe run: "
-              "every gmtime() call the extension makes (conversion, file naming) is checked to happen under the interpreter lock.")
+              "every gmtime() call the extension makes (conversion, file naming) is checked to happen under the interpreter lock. (d) calendar "
+              "breakdown of digital_rf.get_unix_time at 1 Hz for the first second, noon and last second of every day 1970-2500 "
+              "(thorough: -9999) and of the days around the end of February and the turn of the year up to 9999; indices also as numpy integers.")
         % ((48, 4095, 26, 15, 250) if tier == "quick" else (128, 16383, 35, 23, 4200)),
         assumptions=["values of k strictly between grid points at large magnitude are not covered",
                      "exact model: sec=k*d//n, ps=((k*d) mod n)*1e12//n, ceil((s*1e12+p)*n/(d*1e12)) in Python integers"],
     )
     stage.activate()
     jobs = small_jobs(tier) + mag_jobs(tier) + equiv_jobs(tier) + [("lock",)]
+    # every day 1970-2500 (thorough: -9999), and the days around the end of February and the turn of the year up to 9999
+    full_to = 2500 if tier == "quick" else 9999
+    jobs += [("calendar", y, min(y + 49, full_to), False) for y in range(1970, full_to + 1, 50)]
+    jobs += [("calendar", y, min(y + 499, 9999), True) for y in range(full_to + 1, 10000, 500)]
     rot = core.seed() % len(jobs)
     jobs = jobs[rot:] + jobs[:rot]
     for part in core.pmap(run_job, jobs, chunksize=8):
